@@ -18,7 +18,7 @@ func init() {
 		Explanation: "(R1) decision table read off the CFG of defaultConfigHooks.GetClientAuth over (RequireClientCert, VerifyClient): (T,T)->RequireAndVerifyClientCert, (F,T)->VerifyClientCertIfGiven, (T,F)->RequestClientCert, (F,F)->NoClientCert, and SetServerConfig stores exactly that result into ClientAuth on every path that publishes a server context; " +
 			"(R2) verification is never silently off: every store of true into tls.Config.InsecureSkipVerify (outside the forked crypto) is control-dependent on cfg.InsecureSkip or on a non-nil custom VerifyPeerCertificate installed in the same function; " +
 			"(R3) CA provenance: both RootCAs and ClientCAs receive the pool returned by hooks.GetX509Pool(secret.Validation) and its error is returned; (R4) plaintext only via the inspector: in serverContextManager.Conn every return of something that is not a *TLSConn is control-dependent on not-a-TCP-conn, TLS disabled, or inspector mode with a first byte other than 0x16; " +
-			"(R5) selection order in GetConfigForClient: unready providers are skipped first, an SNI match returns inside the loop, the ALPN candidate is recorded only while none is recorded and used only after the loop, the default is the first ready provider and is used last. (R6) MatchedServerName returns true only behind a hit in the table of configured names, string equality, or a suffix test whose pattern provably starts with \".\" (prefix domain), after lower-casing. (R3, provenance) every non-nil pool GetX509Pool returns is created in the call and filled from the CA bytes obtained in the call (inline PEM or the file read now), or cached under a key derived from those bytes. (R7) in the update branch of AddOrUpdateListener no store to a stored-config field that NewTLSServerContextManager (transitively) reads is reachable after the call that rebuilds the manager.",
+			"(R5) selection order in GetConfigForClient: unready providers are skipped first, an SNI match returns inside the loop, the ALPN candidate is recorded only while none is recorded and used only after the loop, the default is the first ready provider and is used last. (R6) MatchedServerName returns true only behind a hit in the table of configured names, string equality, or a suffix test whose pattern provably starts with \".\" (prefix domain), after lower-casing. (R3, provenance) every non-nil pool GetX509Pool returns is created in the call and filled from the CA bytes obtained in the call (inline PEM or the file read now), or cached under a key derived from those bytes. (R7) in the update branch of AddOrUpdateListener no store to a stored-config field that NewTLSServerContextManager (transitively) reads is reachable after the call that rebuilds the manager. (R5, round 5) MatchedALPN tests are collected over the package functions reachable from GetConfigForClient: each is given ClientHelloInfo.SupportedProtos as a whole (possibly through parameters) and sits in exactly one loop, over providers; when the test lives in a helper the other R5 obligations are evaluated in helper form.",
 		Run: runC13,
 	})
 }
@@ -249,8 +249,14 @@ func runC13(c *Ctx) {
 		ready := callsIn(gc, false, func(cc *ssa.CallCommon) bool { return cc.IsInvoke() && cc.Method.Name() == "Ready" })
 		sni := callsIn(gc, false, func(cc *ssa.CallCommon) bool { return cc.IsInvoke() && cc.Method.Name() == "MatchedServerName" })
 		alpn := callsIn(gc, false, func(cc *ssa.CallCommon) bool { return cc.IsInvoke() && cc.Method.Name() == "MatchedALPN" })
+		// clauses that hold wherever the ALPN test lives (in this function or in a helper of the package)
+		alpnAll := c13ALPNCalls(c, pkg, gc)
 		if len(ready) != 1 || len(sni) != 1 || len(alpn) != 1 {
-			c.Fail("C13.R5", fk+":shape", gc.Pos(), fmt.Sprintf("expected one Ready/MatchedServerName/MatchedALPN call, found %d/%d/%d", len(ready), len(sni), len(alpn)))
+			if len(sni) == 1 && len(alpn) == 0 && len(alpnAll) == 1 {
+				c13SelectionHelperForm(c, gc, sni[0].Instr, alpnAll[0])
+				return
+			}
+			c.Fail("C13.R5", fk+":shape", gc.Pos(), fmt.Sprintf("expected one Ready/MatchedServerName/MatchedALPN call, found %d/%d/%d (ALPN tests in helpers: %d)", len(ready), len(sni), len(alpn), len(alpnAll)))
 			return
 		}
 		// not-ready providers skipped before anything else
